@@ -445,6 +445,9 @@ func (p *storeProp) Gen(r *Rand, tier string, idx int) any {
 		if r.Chance(0.4) {
 			sp.Ops = append(sp.Ops, SOp{Op: "reopen", How: fmt.Sprintf("fsfail%d", r.Range(1, 9))})
 		}
+		if r.Chance(0.3) {
+			sp.Ops = append(sp.Ops, SOp{Op: "reopen", How: "tarstale"})
+		}
 		for _, how := range []string{"fs", "tar", "external", "new"} {
 			sp.Ops = append(sp.Ops, SOp{Op: "reopen", How: how})
 		}
@@ -1063,13 +1066,26 @@ func (sr *storeRun) blobListingDiff() string {
 
 // ---------- reopen + disk validity (C08, C07) ----------
 
-func tarDir(dir, out string) error {
+func tarDir(dir, out string) error { return tarDirStale(dir, out, false) }
+
+// tarDirStale: with stale set the archive begins with an outdated index.json (no manifests), the
+// way an archive looks that was updated in place with tar -r: the later entry of a name is the one that counts.
+func tarDirStale(dir, out string, stale bool) error {
 	f, err := os.Create(out)
 	if err != nil {
 		return err
 	}
 	defer f.Close()
 	tw := tar.NewWriter(f)
+	if stale {
+		old := []byte(`{"schemaVersion":2,"manifests":[]}`)
+		if err := tw.WriteHeader(&tar.Header{Name: "index.json", Mode: 0o644, Size: int64(len(old)), Typeflag: tar.TypeReg}); err != nil {
+			return err
+		}
+		if _, err := tw.Write(old); err != nil {
+			return err
+		}
+	}
 	err = filepath.Walk(dir, func(p string, fi os.FileInfo, err error) error {
 		if err != nil {
 			return err
@@ -1397,9 +1413,9 @@ func (sr *storeRun) reopen(how string) *Verdict {
 			if hit {
 				sr.info.Probes["reopen_with_unreadable_file_succeeded"]++
 			}
-		case "tar":
+		case "tar", "tarstale":
 			tp := filepath.Join(sr.rc.DiskDir, "layout.tar")
-			if err = tarDir(sr.dir, tp); err == nil {
+			if err = tarDirStale(sr.dir, tp, how == "tarstale"); err == nil {
 				re, err = oci.NewFromTar(context.Background(), tp)
 			}
 		}
